@@ -124,4 +124,22 @@ CHECKS["C20"] = (
     "<= 3, every alignment, nperseg <= 4 (6 thorough) and every bin-centred tone; larger sizes sampled or judged against the "
     "reference implementation only.",
     TB + " scipy.fft is the named reference.", "DESIGN.md §4 C20")
+CHECKS["C11"] = (
+    "TLA+ state machine Reader.tla of concurrent reads (open/seek/read/close on a fresh handle) over a frame/file model, "
+    "model-checked by TLC incl. a rejected shared-handle negative model; TLC-generated interleavings forced on the real "
+    "readers through a _get_fh proxy; recorded reads, offsets and metadata validated by Trace_Reader.tla",
+    "Every completed read equals content[o..o+n) for all interleavings of 2 readers x 2 reads and 3 readers x 1 read on "
+    "small files (9 file configurations: complex/real/multi-file/Stokes, USB/LSB/masked). On the real code all 70 two-read "
+    "interleavings are forced and three-read interleavings sampled; thousands of sequential, Dask, mutate-then-read and "
+    "thread-pool reads on 18 file sets (12 written by the harness with known ramp content + the sample files) and "
+    "offset_at(time_at(k)) for every k are decided by TLC against the file model.",
+    TB + " The baseband package is the file writer/reader of reference.", "DESIGN.md §4 C11")
+CHECKS["C19"] = (
+    "TLA+ spec R2C.tla: operational definition of real_to_complex on the 60-bit fixed-point kernel; TLC checks the "
+    "declarative clauses on all small inputs; every such input replayed on the real function for every dtype, rank and "
+    "axis; random and reader-path lanes validated by Trace_R2C.tla",
+    "Exhaustive over {-1,0,1}^N for N <= 6 plus basis vectors and integer tones for N <= 12 at 2^-50 (length, real part, "
+    "analytic, mix, linearity, tone shift, dtype, axis); a wrong Nyquist-weight variant is rejected. The code is replayed "
+    "at 1e-12 (1e-5 single precision) on ~18k calls; the real-sampled reader path is decided at N <= 16.",
+    TB, "DESIGN.md §4 C19")
 NA = {}
